@@ -242,4 +242,23 @@ def execute(program, ch: Chooser) -> Result:  # noqa: C901, PLR0912, PLR0915
             obs[f"{opname}:{attr}"] = got
             if got != "AttributeError":
                 viols.append(viol("attributes", f"{opname}", "AttributeError", got, attribute=attr))
+    # no instance storage either: the one process-wide object cannot be given attributes through
+    # the back door
+    for label, fn in (
+        ("vars", lambda: vars(MISSING)),
+        ("__dict__", lambda: MISSING.__dict__),
+        ("object.__setattr__", lambda: object.__setattr__(MISSING, "flag", 1)),
+        ("read-back", lambda: MISSING.flag),
+    ):
+        steps += 1
+        try:
+            fn()
+            got = "no error"
+        except (AttributeError, TypeError):
+            got = "rejected"
+        except Exception as exc:  # noqa: BLE001
+            got = type(exc).__name__
+        obs[label] = got
+        if got != "rejected":
+            viols.append(viol("attributes", f"instance-storage/{label}", "rejected (AttributeError / TypeError)", got))
     return Result("attributes", True, viols, obs, steps=steps)
